@@ -2,3 +2,29 @@
 
 // Contracts for package formats, read by /verif/govc (comment-only file).
 package formats
+
+// line sniffers (package-level list sniffFormats): each may use the scratch state
+//@ interface sniffFormat.sniff(s sniffFormat, data []byte)
+//@   assigns global(state), (state)[*]
+
+//@ func Sniffer.SniffReader
+//@   props C04, C06
+//@   requires f != nil
+//@   requires forall i int :: 0 <= i && i < len(sniffFormats) ==> sniffFormats[i] != nil
+//@   assigns global(state), (state)[*]
+//@   ensures [C04:sniff:oneOf] (result1 == nil) != (result0 == "")
+
+//@ func Sniffer.SniffFile
+//@   props C04
+//@   requires forall i int :: 0 <= i && i < len(sniffFormats) ==> sniffFormats[i] != nil
+//@   assigns global(state), (state)[*]
+//@   ensures [C04:sniff:oneOf] (result1 == nil) != (result0 == "")
+
+//@ func spdxSniff.sniff
+//@   props C04
+//@   requires state != nil
+//@   assigns global(state), (state)[*]
+
+//@ func cdxSniff.sniff
+//@   props C04
+//@   assigns \nothing
